@@ -27,5 +27,5 @@ Theorem k_jitthreshold_safe : forall args, Pre_jitthreshold args ->
   forall fuel, safe_outcome (run fuel k_jitthreshold args).
 Proof.
   intros args (d1 & d2 & d3 & d4 & ta & da & s & e & thr & method & -> & H1 & H2 & H3 & H4) fuel.
-  safe_start k_jitthreshold ann_jitthreshold. vc.
+  safe_start k_jitthreshold ann_jitthreshold. vc k_jitthreshold ann_jitthreshold.
 Qed.
